@@ -54,6 +54,30 @@ func randUnit(r *rand.Rand) s2.Point {
 
 // adversarial triple: collinear / nearly identical / nearly antipodal at separations 1e-300..pi
 func advTriple(r *rand.Rand) (a, b, c s2.Point) {
+	if r.Intn(4) == 0 {
+		// Nearly collinear points closer together than ~1e-77 rad: squared lengths and
+		// error bounds underflow here, the fast paths must notice and give up.
+		axes := []r3.Vector{{X: 1}, {Y: 1}, {Z: 1}, {X: -1}, {Y: -1}, {Z: -1}}
+		av := axes[r.Intn(6)]
+		a = s2.Point{Vector: av}
+		u := av.Cross(randUnit(r).Vector).Normalize()
+		w := av.Cross(u)
+		t := math.Pow(10, -(78 + r.Float64()*200))
+		k := 0.2 + 5*r.Float64()
+		delta := math.Pow(10, -r.Float64()*16)
+		if r.Intn(3) == 0 {
+			delta = 0
+		}
+		b = s2.Point{Vector: av.Add(u.Mul(t))}
+		c = s2.Point{Vector: av.Add(u.Add(w.Mul(delta)).Mul(t * k))}
+		if r.Intn(2) == 0 {
+			b, c = c, b
+		}
+		if r.Intn(3) == 0 {
+			a, c = c, a
+		}
+		return
+	}
 	a = randUnit(r)
 	if r.Intn(3) == 0 { // axis-aligned great circles are the exactly-degenerate ones
 		axes := []s2.Point{{Vector: r3.Vector{X: 1}}, {Vector: r3.Vector{Y: 1}}, {Vector: r3.Vector{Z: 1}}}
